@@ -175,6 +175,11 @@ class CallMixin:
                 return z3.BoolVal(cls.py in ("type", "object"))
             t = box(x, st)
             return sub(typeof(t), CLASSES.const(cls.py))
+        if cls.kind == "pyobj" and cls.py[0] == "builtin" and cls.py[1] == "super":
+            if "super" not in CLASSES.consts:
+                CLASSES.add("super", ["object"])
+            self.note_class("super")
+            return sub(typeof(box(x, st)), CLASSES.const("super"))
         if cls.kind == "pyobj" and cls.py[0] == "external":
             CLASSES.add(cls.py[1], ["object"]) if cls.py[1] not in CLASSES.consts else None
             self.note_class(cls.py[1])
